@@ -49,6 +49,6 @@ theorem one_lt_len2 (n : Nat) : ((1 : Int) < (n : Int) + 1 + 1) = True := by
 
 macro "dispexit_eval" : tactic => `(tactic|
   (simp (config := { decide := true }) [runMethod, exec, exec.execH, eval, builtin, builtin2, ext, upd, Val.truthy, cmpInt, len2_ne_one,
-     one_lt_len2, *]))
+     one_lt_len2, len1_ne_zero, len1_beq_zero, len1_eq_zero, len1_pos, len1_ge_one, len2_ge_one, len2_eq_one, len2_beq_one, len2_bne_one, len2_gt_one, *]))
 
 end Haiway.Bridge.DispExit
